@@ -209,17 +209,7 @@ func enc(tx *lib.Transaction) []byte {
 	return bz
 }
 
-func cloneTx(tx *lib.Transaction) *lib.Transaction {
-	out := new(lib.Transaction)
-	if err := lib.Unmarshal(enc(tx), out); err != nil {
-		panic(err)
-	}
-	return out
-}
-
 func freshAddr(label string) []byte { return crypto.Hash([]byte("c05/addr/" + label))[:20] }
-
-func u64(b []byte) uint64 { return binary.BigEndian.Uint64(b) }
 
 // ---- Ethereum wrappers ----
 
